@@ -27,7 +27,11 @@ def truth(v, case):
     if isinstance(v, COND_TYPES):
         t = fold_cond(v)
         if t is None:
-            t = Interp(None, case).decide(v, State())
+            # composite conditions (not / and / or) are decomposed by the interpreter's branching
+            it = Interp(None, case)
+            it.stack.append(None)
+            got = {b for b, _s in it.branch(v, State())}
+            t = got.pop() if len(got) == 1 else None
         if t is None:
             raise Undecided([repr(v)])
         return t
